@@ -322,6 +322,10 @@ def build_case(w, prog, log, clock, scratch, sink_factory):
                 for n, uc in ds:
                     self.addDetail(render_name(n), make_content(w, uc, clock))
                 if fail is not None:
+                    # cleanups registered before the failure that raise while fixtures unwinds the half-set-up fixture
+                    # (they run last-registered first, so register them in reverse)
+                    for ce in reversed(fail[2]):
+                        self.addCleanup(lambda _e=ce: (_ for _ in ()).throw(w.make_exc(_e)))
                     raise w.make_exc(fail[0])
                 if cleanup_stage is not None:
                     self.addCleanup(run_stage, case, cleanup_stage)
@@ -384,7 +388,7 @@ def build_case(w, prog, log, clock, scratch, sink_factory):
                 e.verif = x
                 raise
         if k == 'fixtureFail':
-            case.useFixture(mk_fixture(0, term[1], None, case, fail=(term[2], term[3])))
+            case.useFixture(mk_fixture(0, term[1], None, case, fail=(term[2], term[4], term[3])))
         raise AssertionError('harness: bad terminal %r' % (term,))
 
     class T(tt.TestCase):
@@ -592,7 +596,9 @@ class Gen:
                 term = ['expectFailure', self.tag, None, ['uxs', self.tag]]
         elif not deco:
             self.tag += 1
-            term = ['fixtureFail', self.nucs(), self.exc([('exc', 3), ('failure', 1), (['user', 2, 'exc'], 1)]), [SETUPERR_CLS, self.tag]]
+            e = self.exc([('exc', 3), ('failure', 1), (['user', 2, 'exc'], 1)])
+            ces = [self.exc([('exc', 3), ('failure', 1), ('skip', 1)]) for _ in range(rng.choice([0, 0, 1, 2]))]
+            term = ['fixtureFail', self.nucs(), e, ces, [SETUPERR_CLS, self.tag]]
         else:
             term = 'ret'
         return ['stage', sid, acts, term]
